@@ -604,6 +604,98 @@ func kernelLayers(tier string) []Layer {
 			}
 		},
 	})
+	// K3: words at the *binary* boundaries of the 64-bit registers that hold the decimal words
+	// (2·10^19 > 2^64: sums wrap the register; 2^63: sign-bit tricks; 2^32, √B: half-word products)
+	{
+		Sb := []uint64{0, 1, 1<<63 - 1, 1 << 63, 1<<63 + 1, (1<<64 - 1) - BW, (1<<64 - 1) - BW + 1, (1<<64 - 1) - BW + 2, BW / 2, BW - 2, BW - 1, 1<<32 - 1, 1 << 32, 3162277660, 3162277661}
+		type unit3 struct {
+			k *kdef
+			n int
+		}
+		var units3 []unit3
+		for i := range kernelDefs {
+			if kernelDefs[i].name == "divWVW" {
+				continue // binary kernel, covered over the full 64-bit range by K1
+			}
+			for n := 1; n <= 12; n++ {
+				units3 = append(units3, unit3{&kernelDefs[i], n})
+			}
+		}
+		layers = append(layers, Layer{
+			Name:   "K3-binary-boundary-words",
+			Units:  len(units3),
+			Bounds: fmt.Sprintf("9 decimal vector kernels × lengths 1..12 × a pair (a,b) from %d² words at the binary boundaries (2^63−1, 2^63, 2^63+1, 2^64−B−1.., B/2, B−2, B−1, 2^32−1, 2^32, ⌊√B⌋, ⌈√B⌉, 0, 1) placed at every index (a in x; b in y, the scalar, or the initial z) × carry context {none, generated at the previous word, chained from word 0} × filler {0, B−1} × layouts", len(Sb)),
+			Run: func(c *Ctx, u int) {
+				k, n := units3[u].k, units3[u].n
+				for _, layout := range k.layouts {
+					for i := 0; i < n; i++ {
+						for _, a := range Sb {
+							if c.Done() {
+								return
+							}
+							for _, b := range Sb {
+								for ctx := 0; ctx < 3; ctx++ {
+									for _, fill := range []uint64{0, BW - 1} {
+										x := make([]uint64, n)
+										y := make([]uint64, n)
+										for j := range x {
+											x[j] = fill
+										}
+										x[i], y[i] = a, b
+										switch ctx {
+										case 1:
+											if i == 0 {
+												continue
+											}
+											x[i-1], y[i-1] = BW-1, 1
+										case 2:
+											if i < 2 {
+												continue
+											}
+											x[0], y[0] = BW-1, 1
+											for j := 1; j < i; j++ {
+												x[j], y[j] = BW-1, 0
+											}
+										}
+										switch k.name {
+										case "add10VV":
+											kernelCase(c, k, n, layout, x, y, nil, 0, 0, 0)
+										case "sub10VV":
+											// keep x >= y locally is not required: the kernel returns the borrow
+											kernelCase(c, k, n, layout, x, y, nil, 0, 0, 0)
+										case "add10VW", "sub10VW":
+											if ctx == 0 {
+												kernelCase(c, k, n, layout, x, nil, nil, b, 0, 0)
+											}
+										case "shl10VU", "shr10VU":
+											if ctx == 0 && fill == 0 {
+												kernelCase(c, k, n, layout, x, nil, nil, 0, 0, uint(b%19))
+											}
+										case "mulAdd10VWW":
+											if ctx == 0 {
+												kernelCase(c, k, n, layout, x, nil, nil, b, a, 0)
+												kernelCase(c, k, n, layout, x, nil, nil, b, BW-1, 0)
+											}
+										case "addMul10VVW":
+											// z += x·w: initial z carries b at the same index
+											for _, w := range []uint64{1, BW - 1, 3162277661, 1 << 32} {
+												kernelCase(c, k, n, layout, x, nil, y, w, 0, 0)
+											}
+										case "div10VWW":
+											if ctx == 0 && b != 0 {
+												kernelCase(c, k, n, layout, x, nil, nil, b, b-1, 0)
+												kernelCase(c, k, n, layout, x, nil, nil, b, 0, 0)
+											}
+										}
+									}
+								}
+							}
+						}
+					}
+				}
+			},
+		})
+	}
 	// scalar kernels
 	layers = append(layers, Layer{
 		Name:   "K2-scalar-kernels",
